@@ -1,5 +1,6 @@
 import Gedcom.Model.SimilarityRaw
 import Gedcom.Model.Float64
+import Gedcom.Model.Float64Jaro
 import Driver.Util
 namespace Driver.SimH
 open Driver
@@ -162,6 +163,13 @@ def handleSimilarity (cmd : String) (rest : List String) : Option String :=
     match rest with
     | [a, b] => some <| match fromHex a, fromHex b with
       | some a, some b => showRat (jaro a b)
+      | _, _ => "bad-op"
+    | _ => some "bad-op"
+  | "jarof" =>
+    -- the float64 Jaro value itself, through the binary64 model, in lowest terms mant/2^frac
+    match rest with
+    | [a, b] => some <| match fromHex a, fromHex b with
+      | some a, some b => let v := F64.normalize (F64.jaroF a b); s!"{v.mant} {v.frac}"
       | _, _ => "bad-op"
     | _ => some "bad-op"
   | "jw" =>
